@@ -930,9 +930,12 @@ fn is_release(o: std::sync::atomic::Ordering) -> bool {
 /// protected seize guard are SeqCst whatever ordering flurry passes (seize 0.3.3 `protect`).
 pub fn happens_before(r: &RunResult, st: &mut HbStats) -> Vec<Violation> {
     use flurry::verif::Kind;
-    const N: usize = crate::sched::MAXT;
+    const N: usize = crate::sched::MAXT_CLASSIC;
     type VC = [u64; N];
     let mut out = Vec::new();
+    if r.history.iter().any(|h| h.thread as usize >= N) {
+        return out; // crowd programs are not C15 programs
+    }
     let mut vc: [VC; N] = [[0; N]; N];
     let mut rel: std::collections::HashMap<usize, VC> = std::collections::HashMap::new();
     let mut lockrel: std::collections::HashMap<usize, VC> = std::collections::HashMap::new();
